@@ -18,7 +18,7 @@ def search(ctx):
 
 
 def run(ctx):
-    ctx.extract(["capacity", "listlocks"])
+    ctx.extract(["capacity", "listlocks", "listguards"])
     ctx.prove(PROPS, extra_modules=MODULES)
     if ctx.build_harness("c15"):
         ctx.harness("c15", ["run", ctx.seed, ctx.tier], timeout=3000)
